@@ -450,11 +450,41 @@ example : resolveCommitWithin (some [[10,11,3,4], [7,7,7,7]]) sampleTables [10] 
 example : shortestWithin (some [[10,11,3,4], [7,7,7,7]]) sampleTables [10,11,3,4] = 1 := by decide
 example : disambiguateWithRefs [[10], [10,11]] [10,11,3,4] 1 = 3 := by decide
 
+example : ∀ x ∈ sampleTables.flatten, x.length = [10,11,1,2].length := by decide
+
+/-- ids of 10 digits in two segments, three of them sharing 9 digits (beyond the 4-byte short key) -/
+def longTables : List (List Id) := commitTables (mkSegs true [3, 2]
+  [[0,0,0,0,0,0,0,0,0,0], [10,11,1,2,3,4,5,6,7,8], [10,11,1,2,3,4,5,6,7,9], [10,11,1,2,3,4,5,6,9,9], [7,7,7,7,7,7,7,7,7,7]] 0 [])
+def longKey : Id := [10,11,1,2,3,4,5,6,7,8]
+
+/-- every hypothesis of `disambiguation_consistent` holds on a concrete instance (key inside the set) -/
+example :
+    resolveCommitWithin (some [longKey, [10,11,1,2,3,4,5,6,9,9]]) longTables
+      (longKey.take (shortestWithin (some [longKey, [10,11,1,2,3,4,5,6,9,9]]) longTables longKey)) = .single longKey ∧
+    ∀ l < shortestWithin (some [longKey, [10,11,1,2,3,4,5,6,9,9]]) longTables longKey,
+      resolveCommitWithin (some [longKey, [10,11,1,2,3,4,5,6,9,9]]) longTables (longKey.take l) ≠ .single longKey :=
+  disambiguation_consistent longTables (commitTables_sorted _) longKey (by decide) (by decide) (by decide) (by decide)
+    ⟨[7,7,7,7,7,7,7,7,7,7], by decide, by decide⟩ (by decide) _ (by decide)
+example : shortestWithin (some [longKey, [10,11,1,2,3,4,5,6,9,9]]) longTables longKey = 9 := by decide
+example : shortestLen longTables longKey = 10 := by decide
+/-- … and on one with the key outside the set (fall-back to the whole index) -/
+example :
+    resolveCommitWithin (some [[7,7,7,7,7,7,7,7,7,7]]) longTables
+      (longKey.take (shortestWithin (some [[7,7,7,7,7,7,7,7,7,7]]) longTables longKey)) = .single longKey :=
+  (disambiguation_consistent longTables (commitTables_sorted _) longKey (by decide) (by decide) (by decide) (by decide)
+    ⟨[7,7,7,7,7,7,7,7,7,7], by decide, by decide⟩ (by decide) _ (by decide)).1
+example := shortest_resolves longTables (commitTables_sorted _) longKey (by decide) (by decide) (by decide) (by decide)
+
 /-- change ids: two commits of change `aa11` in different segments, one hidden -/
 def sampleChangeSegs : List Seg := mkSegs false [2, 2] [[0,0,0,0], [10,10,1,1], [10,10,1,1], [10,10,2,2]] 0 []
 def sampleIdx : Index := build [[], [0], [0], [1]]
 example : resolveChangeTargets sampleIdx [3] sampleChangeSegs [10,10,1] = .single [(2, false), (1, true)] := by decide
 example : resolveChangeTargets sampleIdx [3] sampleChangeSegs [10,10] = .ambiguous := by decide
 example : ChangeStackWF sampleChangeSegs := (mkSegs_changes_ok _ _ (by decide)).1
+example : IndexWF sampleIdx := foldl_addCommit_wf [[], [0], [0], [1]] [] wf_nil (by simp [ParentsBefore])
+/-- every hypothesis of `change_prefix_all_visible` holds on this instance -/
+example := change_prefix_all_visible (idx := sampleIdx)
+  (foldl_addCommit_wf [[], [0], [0], [1]] [] wf_nil (by simp [ParentsBefore])) [3] (by decide)
+  sampleChangeSegs (mkSegs_changes_ok _ _ (by decide)).1 [10,10,1] (by decide) [(2, false), (1, true)] (by decide)
 
 end JjModel.C20
